@@ -41,6 +41,8 @@ func c20Pool() []replLine {
 		{For(";", "", "", "{ "+Print("nope")+" }"), true, "runtime"}, {For(Var("i", "0"), "", "", "{ "+Print("i")+" nil.k; }"), true, "runtime"}, {Fun("lp", "", " "+For(";", "", "", "{ 1 / 0; }")+" ") + " lp();", true, "runtime"},
 		{For(";", "", "", "{ "+Print(`"once"`)+" "+Break()+" }"), true, "print"}, {While(True(), "{ [1][3]; }"), true, "runtime"}, {For(";", "", "i = 1", "{ "+Print("1")+" }"), true, "runtime"},
 		{"7 % 0.5;", true, "echo"}, {Print("2.75 % 0.5"), true, "print"}, {"1 % 0.1;", true, "echo"}, {"1 / 0.0000000001;", true, "echo"}, {"0.5 % 7;", true, "echo"}, {"5 % 0;", true, "runtime"},
+		// built-ins called with no arguments at all are reported misuse, not a crash
+		{BI("append") + ";", true, "runtime"}, {BI("min") + ";", true, "runtime"}, {BI("max") + ";", true, "runtime"}, {BI("len") + ";", true, "runtime"}, {BI("remove") + ";", true, "runtime"}, {BI("keys") + ";", true, "runtime"}, {BI("append", "[1]") + ";", true, "runtime"}, {BI("remove", "[]", "0") + ";", true, "runtime"}, {Print("(") , true, "syntax"}, {Var("ka", "["), true, "syntax"}, {B["len"] + "(", true, "syntax"},
 		// stacked prefix operators apply from the operand outwards
 		{"-~5;", true, "echo"}, {"~-1;", true, "echo"}, {"!-0;", true, "echo"}, {Var("k", "7") + " -~k;", true, "echo"}, {"-!1;", true, "runtime"}, {"!~0;", true, "echo"}, {"1 || 2 && 0;", true, "echo"}, {"0 && 1 || 2;", true, "echo"},
 		// a built-in's name cannot be declared, on the first line of a session as on any later one
